@@ -40,6 +40,8 @@ type c16Case struct {
 	JSONBlobs  bool `json:"json_blobs,omitempty"` // (blob paths) JSON-encoded event blobs
 	// GarbageFirst: (blob lists) a batch that cannot be inspected (garbage bytes) is put in front of the real batches
 	GarbageFirst bool `json:"garbage_first,omitempty"`
+	// IntraMarker: the caller also sets the intra-proxy marker headers (any remote caller can)
+	IntraMarker bool `json:"intra_marker,omitempty"`
 }
 
 // c16PrependGarbage puts an undecodable blob in front of every repeated event-blob field that holds something.
@@ -167,8 +169,16 @@ func c16Run(c c16Case) error {
 	chain = append(chain, acl.Intercept)
 
 	ctx := context.Background()
-	if c.Bypass {
-		ctx = metadata.NewIncomingContext(ctx, metadata.Pairs(s2scommon.RequestTranslationHeaderName, "false"))
+	if c.Bypass || c.IntraMarker {
+		md := metadata.MD{}
+		if c.Bypass {
+			md.Set(s2scommon.RequestTranslationHeaderName, "false")
+		}
+		if c.IntraMarker {
+			md.Set(s2scommon.IntraProxyHeaderKey, s2scommon.IntraProxyHeaderValue)
+			md.Set(s2scommon.IntraProxyOriginProxyIDHeader, "node-x")
+		}
+		ctx = metadata.NewIncomingContext(ctx, md)
 	}
 	called := 0
 	var seen proto.Message
@@ -349,6 +359,14 @@ func TestVF_C16_Paths(t *testing.T) {
 						}
 						c16Classify(st, c, []vfshared.Path{p})
 						n++
+						if !companion {
+							ci := c
+							ci.IntraMarker = true
+							if err := c16Run(ci); err != nil {
+								c16Fail(t, st, part, ci, err)
+							}
+							st.Case(vfshared.Fingerprint(ci), forbidden, "caller_sets_the_intra_proxy_marker")
+						}
 						if viaBlob && forbidden {
 							cg := c
 							cg.GarbageFirst = true
@@ -444,6 +462,7 @@ func TestVF_C16_Random(t *testing.T) {
 		c.Bypass = c.Translation && rapid.IntRange(0, 2).Draw(rt, "bypass") == 0
 		c.Companion = rapid.Bool().Draw(rt, "companion")
 		c.Repairable = rapid.IntRange(0, 3).Draw(rt, "repairable") == 0
+		c.IntraMarker = rapid.IntRange(0, 3).Draw(rt, "intra") == 0
 		// merging several paths that share a oneof would let the later branch win and drop the earlier leaf
 		if err := c16Run(c); err != nil {
 			c16Fail(rt, st, part, c, err)
